@@ -411,10 +411,18 @@ static Json doView(const Json &arg, bool probes)
   Keep keep;
   IntArr a = build(arg["e"], keep);
   describe(*a, o, "vsize", "vn", "table", "vrange");
-  if (probes) {
+  if (arg.has("probes")) {
+    // get() at the given coordinates, inside or outside size()
     Json c = Json::array();
     for (size_t k = 0; k < arg["probes"].size(); ++k) c.push((long long)a->get(v3i(arg["probes"][k])));
-    o.set("clamped", c);
+    o.set(probes ? "clamped" : "outside", c);
+  }
+  if (arg.has("oregions")) {
+    // getValueRange over regions that may start below 0 / end beyond size()
+    Json r = Json::array();
+    for (size_t k = 0; k < arg["oregions"].size(); ++k)
+      r.push(rangeJson(a->getValueRange(v3i(arg["oregions"][k][(size_t)0]), v3i(arg["oregions"][k][1]))));
+    o.set("oranges", r);
   }
   return o;
 }
@@ -457,7 +465,10 @@ struct World
 
   IntArr view(const std::string &a, const Json &arg)
   {
-    const std::string key = a + arg.dump();
+    // one live view per parameter tuple (the probe coordinates are not parameters of the view)
+    std::string key = a;
+    for (size_t i = 0; i < arg.o.size(); ++i)
+      if (arg.o[i].first != "probes") key += arg.o[i].first + arg.o[i].second.dump();
     auto it = views.find(key);
     if (it != views.end()) return it->second;
     IntArr base = arr;
@@ -520,10 +531,17 @@ struct World
     } else if (a == "RangeWhole") {
       o.set("range", rangeJson(arr->getValueRange()));
     } else if (a == "ViewShift" || a == "ViewSub" || a == "ViewSlices") {
-      describe(*view(a, arg), o, "vsize", "vn", "table", "vrange");
+      IntArr v = view(a, arg);
+      describe(*v, o, "vsize", "vn", "table", "vrange");
+      Json out = Json::array();
+      for (size_t k = 0; k < arg["probes"].size(); ++k) out.push((long long)v->get(v3i(arg["probes"][k])));
+      o.set("outside", out);
     } else if (a == "ViewAcc") {
       if (!accView) accView = std::make_shared<Array3DAccessor<int, double>>(IntArr(arr));
       describe(*accView, o, "vsize", "vn", "table", "vrange");
+      Json out = Json::array();
+      for (size_t k = 0; k < arg["probes"].size(); ++k) out.push((long long)accView->get(v3i(arg["probes"][k])));
+      o.set("outside", out);
     } else {
       o.set("error", "unknown action " + a);
     }
